@@ -1,6 +1,6 @@
 // C18 — terminal I/O failures never panic, poison or corrupt logical state (BarState level).
 // @file-encodes state::BarState::draw, state::BarState::tick, state::BarState::println, state::BarState::suspend, state::BarState::finish_using_style, state::BarState::reset, state::BarState::set_length, state::BarState::set_tab_width, draw_target::Drawable::clear, draw_target::Drawable::draw
-// @file-assumes BarState built directly (rig); the terminal fault is injected at the level of DrawState::draw_to_term (the k-th draw of the operation returns io::ErrorKind::BrokenPipe BEFORE updating last_line_count, which is how the real draw_to_term propagates a failing terminal call with `?`; that propagation itself is checked on the abstract screen in harness/draw_target/c18_dtt.rs); format_state replaced by a recorder; Instant::now frozen
+// @file-assumes BarState built directly (rig); the rate limiter admits every draw (a refused draw reaches no terminal call; whether the failing draw happens must be a concrete fact: dropping an io::Error whose existence is symbolic explodes under CBMC); the terminal fault is injected at the level of DrawState::draw_to_term (the k-th draw of the operation returns io::ErrorKind::BrokenPipe BEFORE updating last_line_count, which is how the real draw_to_term propagates a failing terminal call with `?`; that propagation itself is checked on the abstract screen in harness/draw_target/c18_dtt.rs); format_state replaced by a recorder; Instant::now frozen
 #[cfg(kani)]
 mod verif_c18_state {
     use super::verif_rig_state::*;
@@ -76,92 +76,92 @@ mod verif_c18_state {
         std::mem::forget(bs);
     }
 
-    // @harness id=C18 tier=quick timeout=1500 mem=10 checks=rust
+    // @harness id=C18 tier=quick timeout=1800 mem=12 checks=rust
     // @bounds BarState tick whose draw number 0 fails with an I/O error; pos/len over u64; then a healthy forced draw: no panic, position / length / finished / message exactly as without the failure, the following call works and paints
     #[kani::proof]
     #[kani::unwind(6)]
-    //@STUBS std now widthascii noterm nomulti rlany noweight fsrecord dttcontract
+    //@STUBS std now widthascii noterm nomulti rlctl noweight fsrecord dttcontract
     fn c18_bar_tick_fail0() {
         one_op(0, 0);
     }
 
-    // @harness id=C18 tier=quick timeout=1500 mem=10 checks=rust
+    // @harness id=C18 tier=quick timeout=1800 mem=12 checks=rust
     // @bounds BarState set_length whose draw number 0 fails with an I/O error; pos/len over u64; then a healthy forced draw: no panic, position / length / finished / message exactly as without the failure, the following call works and paints
     #[kani::proof]
     #[kani::unwind(6)]
-    //@STUBS std now widthascii noterm nomulti rlany noweight fsrecord dttcontract
+    //@STUBS std now widthascii noterm nomulti rlctl noweight fsrecord dttcontract
     fn c18_bar_set_length_fail0() {
         one_op(1, 0);
     }
 
-    // @harness id=C18 tier=quick timeout=1500 mem=10 checks=rust
+    // @harness id=C18 tier=quick timeout=1800 mem=12 checks=rust
     // @bounds BarState set_tab_width whose draw number 0 fails with an I/O error; pos/len over u64; then a healthy forced draw: no panic, position / length / finished / message exactly as without the failure, the following call works and paints
     #[kani::proof]
     #[kani::unwind(6)]
-    //@STUBS std now widthascii noterm nomulti rlany noweight fsrecord dttcontract
+    //@STUBS std now widthascii noterm nomulti rlctl noweight fsrecord dttcontract
     fn c18_bar_set_tab_width_fail0() {
         one_op(2, 0);
     }
 
-    // @harness id=C18 tier=quick timeout=1500 mem=10 checks=rust
+    // @harness id=C18 tier=quick timeout=1800 mem=12 checks=rust
     // @bounds BarState println whose draw number 0 fails with an I/O error; pos/len over u64; then a healthy forced draw: no panic, position / length / finished / message exactly as without the failure, the following call works and paints
     #[kani::proof]
     #[kani::unwind(6)]
-    //@STUBS std now widthascii noterm nomulti rlany noweight fsrecord dttcontract
+    //@STUBS std now widthascii noterm nomulti rlctl noweight fsrecord dttcontract
     fn c18_bar_println_fail0() {
         one_op(3, 0);
     }
 
-    // @harness id=C18 tier=quick timeout=1500 mem=10 checks=rust
+    // @harness id=C18 tier=thorough timeout=3000 mem=28 checks=rust
     // @bounds BarState suspend whose draw number 0 fails with an I/O error; pos/len over u64; then a healthy forced draw: no panic, position / length / finished / message exactly as without the failure, the following call works and paints
     #[kani::proof]
     #[kani::unwind(6)]
-    //@STUBS std now widthascii noterm nomulti rlany noweight fsrecord dttcontract
+    //@STUBS std now widthascii noterm nomulti rlctl noweight fsrecord dttcontract
     fn c18_bar_suspend_fail0() {
         one_op(4, 0);
     }
 
-    // @harness id=C18 tier=quick timeout=1500 mem=10 checks=rust
+    // @harness id=C18 tier=thorough timeout=3000 mem=28 checks=rust
     // @bounds BarState suspend whose draw number 1 fails with an I/O error; pos/len over u64; then a healthy forced draw: no panic, position / length / finished / message exactly as without the failure, the following call works and paints
     #[kani::proof]
     #[kani::unwind(6)]
-    //@STUBS std now widthascii noterm nomulti rlany noweight fsrecord dttcontract
+    //@STUBS std now widthascii noterm nomulti rlctl noweight fsrecord dttcontract
     fn c18_bar_suspend_fail1() {
         one_op(4, 1);
     }
 
-    // @harness id=C18 tier=quick timeout=1500 mem=10 checks=rust
+    // @harness id=C18 tier=quick timeout=1800 mem=12 checks=rust
     // @bounds BarState finish whose draw number 0 fails with an I/O error; pos/len over u64; then a healthy forced draw: no panic, position / length / finished / message exactly as without the failure, the following call works and paints
     #[kani::proof]
     #[kani::unwind(6)]
-    //@STUBS std now widthascii noterm nomulti rlany noweight fsrecord dttcontract
+    //@STUBS std now widthascii noterm nomulti rlctl noweight fsrecord dttcontract
     fn c18_bar_finish_fail0() {
         one_op(5, 0);
     }
 
-    // @harness id=C18 tier=quick timeout=1500 mem=10 checks=rust
+    // @harness id=C18 tier=quick timeout=1800 mem=12 checks=rust
     // @bounds BarState finish_and_clear whose draw number 0 fails with an I/O error; pos/len over u64; then a healthy forced draw: no panic, position / length / finished / message exactly as without the failure, the following call works and paints
     #[kani::proof]
     #[kani::unwind(6)]
-    //@STUBS std now widthascii noterm nomulti rlany noweight fsrecord dttcontract
+    //@STUBS std now widthascii noterm nomulti rlctl noweight fsrecord dttcontract
     fn c18_bar_finish_and_clear_fail0() {
         one_op(6, 0);
     }
 
-    // @harness id=C18 tier=quick timeout=1500 mem=10 checks=rust
+    // @harness id=C18 tier=quick timeout=1800 mem=12 checks=rust
     // @bounds BarState reset whose draw number 0 fails with an I/O error; pos/len over u64; then a healthy forced draw: no panic, position / length / finished / message exactly as without the failure, the following call works and paints
     #[kani::proof]
     #[kani::unwind(6)]
-    //@STUBS std now widthascii noterm nomulti rlany noweight fsrecord dttcontract
+    //@STUBS std now widthascii noterm nomulti rlctl noweight fsrecord dttcontract
     fn c18_bar_reset_fail0() {
         one_op(7, 0);
     }
 
-    // @harness id=C18 tier=quick timeout=1500 mem=10 checks=rust
+    // @harness id=C18 tier=quick timeout=1800 mem=12 checks=rust
     // @bounds BarState forced_draw whose draw number 0 fails with an I/O error; pos/len over u64; then a healthy forced draw: no panic, position / length / finished / message exactly as without the failure, the following call works and paints
     #[kani::proof]
     #[kani::unwind(6)]
-    //@STUBS std now widthascii noterm nomulti rlany noweight fsrecord dttcontract
+    //@STUBS std now widthascii noterm nomulti rlctl noweight fsrecord dttcontract
     fn c18_bar_forced_draw_fail0() {
         one_op(8, 0);
     }
